@@ -32,6 +32,21 @@ impl EnumSet<DeclarationFlag> {
 	#[verifier::external_body] pub fn remove(&mut self, f: DeclarationFlag) -> (r: bool) ensures final(self).bits == old(self).bits & !flag_bit(f) { unimplemented!() }
 	#[verifier::external_body] pub fn only(f: DeclarationFlag) -> (r: Self) ensures r.bits == flag_bit(f) { unimplemented!() }
 }
+impl EnumSet<DeclarationFlag> {
+	#[verifier::external_body] pub fn empty() -> (r: Self) ensures r.bits == 0, forall|g: DeclarationFlag| !(has(r, g)) { unimplemented!() }
+	#[verifier::external_body] pub fn all() -> (r: Self) ensures r.bits == 31 { unimplemented!() }
+	#[verifier::external_body] pub fn intersection(&self, o: Self) -> (r: Self) ensures r.bits == self.bits & o.bits { unimplemented!() }
+	#[verifier::external_body] pub fn union(&self, o: Self) -> (r: Self) ensures r.bits == self.bits | o.bits { unimplemented!() }
+	#[verifier::external_body] pub fn symmetrical_difference(&self, o: Self) -> (r: Self) ensures r.bits == self.bits ^ o.bits { unimplemented!() }
+	#[verifier::external_body] pub fn complement(&self) -> (r: Self) ensures r.bits == !self.bits & 31 { unimplemented!() }
+	#[verifier::external_body] pub fn is_subset(&self, o: Self) -> (r: bool) ensures r == (self.bits & o.bits == self.bits) { unimplemented!() }
+	#[verifier::external_body] pub fn is_superset(&self, o: Self) -> (r: bool) ensures r == (self.bits & o.bits == o.bits) { unimplemented!() }
+	#[verifier::external_body] pub fn is_disjoint(&self, o: Self) -> (r: bool) ensures r == (self.bits & o.bits == 0) { unimplemented!() }
+	#[verifier::external_body] pub fn len(&self) -> (r: usize) ensures r <= 5, (r == 0) == (self.bits == 0) { unimplemented!() }
+	#[verifier::external_body] pub fn clear(&mut self) ensures final(self).bits == 0 { unimplemented!() }
+	#[verifier::external_body] pub fn insert_all(&mut self, o: Self) ensures final(self).bits == old(self).bits | o.bits { unimplemented!() }
+	#[verifier::external_body] pub fn remove_all(&mut self, o: Self) ensures final(self).bits == old(self).bits & !o.bits { unimplemented!() }
+}
 impl PartialEq<DeclarationFlag> for EnumSet<DeclarationFlag> {
 	#[verifier::external_body] fn eq(&self, o: &DeclarationFlag) -> bool { unimplemented!() }
 }
